@@ -428,7 +428,12 @@ impl<R: Read> Read for ChunkedReader<'_, R> {
                 break;
             }
             let to_read = min(self.remaining_in_chunk, out.len());
-            let n = self.inner.read(&mut out[..to_read])?;
+            let n = match self.inner.read(&mut out[..to_read]) {
+                Ok(n) => n,
+                // bytes already handed out by this call must not be lost: report them, the error comes back on the next call
+                Err(_) if written > 0 => break,
+                Err(e) => return Err(e),
+            };
             if n == 0 {
                 return Err(io::Error::new(ErrorKind::UnexpectedEof, "chunk truncated"));
             }
